@@ -133,12 +133,6 @@ theorem dims_agree (σ : Env) (a : STn) (c : CT) (ds : List Sym) (ha : Agrees σ
   | shape ds' => simp only [STn.dims] at hd; cases hd; exact ha
   | unknown => simp [STn.dims] at hd
 
-/-- Reference semantics of `Shape(start, end)`: the slice `[s, e)` of the executed shape, with the
-same clamping as `resolve_start_end`. -/
-def execShape (start stop : Option Int) (c : CT) : CT :=
-  let (s, e) := resolveStartEnd start stop c.dims.length
-  .vector ((c.dims.drop s).take (e - s))
-
 /-- **C10.T1-shape**: `Shape` of any tensor whose inferred form agrees with the executed one. -/
 theorem c10_shape_sound (σ : Env) (start stop : Option Int) (a : STn) (c : CT) (ha : Agrees σ a c) :
     Agrees σ (shapeInfer start stop a) (execShape start stop c) := by
